@@ -60,8 +60,13 @@ func (in *Interp) access(st *State, fr *Frame, ins ssa.Instruction, obj int, pat
 	if st.Thread == 0 || obj < 0 {
 		return
 	}
-	if isVerifFile(in, fr.Fn) {
-		return // the harness's own bookkeeping
+	if isVerifFile(in, fr.Fn) && !strings.Contains(fr.Fn.String(), "vEnv") {
+		return // the harness's own bookkeeping (functions named vEnv... model the environment acting for the thread)
+	}
+	for _, f := range st.Frames {
+		if f.InitMode {
+			return // lazy package initialisation (happens before any request in a real process)
+		}
 	}
 	if fr.Fn.Pkg != nil {
 		switch fr.Fn.Pkg.Pkg.Path() {
